@@ -6,6 +6,7 @@ mod props;
 mod refm;
 mod report;
 mod rx;
+mod sender;
 mod tx;
 
 use report::Tier;
@@ -60,6 +61,7 @@ fn main() {
 
 fn dispatch(id: &str, tier: Tier) -> i32 {
     match id {
+        "C06" => props::c06::run(tier),
         "C14" => props::c14::run(tier),
         _ => {
             eprintln!("MACHINERY-ERROR: no check registered for {}", id);
